@@ -583,6 +583,34 @@ def job_session(args):
                     clause = 'mark-vs-verdict' if verb.name != 'SILENT' and marks != (not bool(res)) else 'history-dependent'
                     rep.violate(f'C12|session|{clause}|{family}|{verb.name}', f'result #{which + 1} of the sequence {one!r}, {two!r} (verdict '
                                 f'{bool(res)}) is not rendered as by a fresh formatter (failure mark present={marks})', case)
+    # templates handed out by a representer belong to the caller: joining them in place (TextTemplate.join / TableTemplate.join are
+    # documented as in-place) must not change what the representer produces for the next result
+    baseline = {}
+    for verb in Verbosity:
+        for spec in specs:
+            baseline[(repr(spec), verb)] = templates_for('full', build(spec)[1], verb)[1]
+    for verb in Verbosity:
+        for one, two in itertools.product(specs, repeat=2):
+            tp1 = rpr.Representation(rpr.FullRepresenter(), verbosity=verb)(build(one)[1]) or []
+            tp2 = rpr.Representation(rpr.FullRepresenter(), verbosity=verb)(build(two)[1]) or []
+            joined = 0
+            for left, right in zip(tp1, tp2):
+                if type(left) is type(right) and hasattr(left, 'join'):
+                    try:
+                        left.join(right)
+                        joined += 1
+                    except Exception:  # pylint: disable=broad-except
+                        pass            # templates that cannot be joined (different headers / shapes): nothing happened
+            rep.evaluations += 1
+            if not joined:
+                continue
+            for spec in (one, two):
+                text = templates_for('full', build(spec)[1], verb)[1]
+                if text != baseline[(repr(spec), verb)]:
+                    rep.violate(f'C12|session|templates-shared|{family}|{verb.name}', f'after joining in place the templates of {one!r} with those of '
+                                f'{two!r}, a new rendering of {spec!r} differs from the one made before',
+                                {'kind': family, 'joined in place': [repr(one), repr(two)], 'verbosity': verb.name})
+                    break
     rep.sample({'kind': family, 'formatted in a row by one Rst object': [repr(specs[0]), repr(specs[1])]})
     return rep
 
